@@ -76,7 +76,7 @@ def effectsOp (r : Routine) (j : Json) : Except String Json := do
     else if p == "zone" && zone == "garbage" then some ["garbage"]
     else none
   let t : Prog String String String := prog W r a
-  let tr := (t.trace fs).filter isVisible
+  let tr := t.trace fs      -- appends included: the harness records write/flush/close of files the routine has open
   let res := t.exec fs
   let outcome : Json := match res.2 with
     | .ok _ => .str "ok"
